@@ -18,9 +18,11 @@ def cargo(args, timeout=1800):
                           text=True, timeout=timeout)
 
 
-def expected_of(c):
+def expected_of(c, mini=False):
     if c["status"] == "overflow":
         return {"status": "overflow", "at": len(c["hist"])}
+    if mini:
+        return {"status": "built", "vals": c["vals"], "max": c["max"], "exec": c["exec"], "execMax": c["execMax"]}
     third = UNBOUNDED
     for h in c["hist"]:
         if h["k"] == "max_all":
@@ -168,21 +170,35 @@ def run(ck):
     for kind in ("push", "alt"):
         for c in chosen:
             cases.append({"id": len(cases), "kind": kind, "hist": c["hist"], "expected": expected_of(c)})
+    # the smallest struct the builder feature accepts (MiniState: exec + one stack, no inputs, no step
+    # limit) has its own instance of the specification
+    mpath = os.path.join(ck.work, "builder-mini-cases.ndjson")
+    mres = ck.tlc_model("builder/MC_Builder", "builder/MC_BuilderMini_quick.cfg" if q else "builder/MC_BuilderMini_thorough.cfg",
+                        workers=4, timeout=1800, cases_path=mpath, tag="mini")
+    mtres = ck.tlc_model("builder/MC_Builder", "builder/MC_BuilderMini_types.cfg", workers=1, timeout=600,
+                         keep_tags=("TYPESTATE",), tag="mini-types")
+    mraw = vlib.read_ndjson(mpath)
+    for c in pick(mraw, 150 if q else 1500):
+        cases.append({"id": len(cases), "kind": "mini", "hist": c["hist"], "expected": expected_of(c, mini=True)})
     n = run_well_typed(ck, cases)
     rows = []
     for kind in ("push", "alt"):
         for t in tres.tagged.get("TYPESTATE", []):
             rows.append({"id": len(rows), "kind": kind, "state": t["state"], "prefix": t["prefix"],
                          "call": t["call"], "legal": t["legal"]})
+    for t in mtres.tagged.get("TYPESTATE", []):
+        rows.append({"id": len(rows), "kind": "mini", "state": t["state"], "prefix": t["prefix"],
+                     "call": t["call"], "legal": t["legal"]})
     rejected, accepted = run_ill_typed(ck, rows)
     ck.cov["evaluations"] = n + len(rows)
     ck.cov["distinct_nontrivial"] = len(cases) + len(rows)
     ck.cov["rule"] = ("well-typed: builder call sequences ending in build() or in an overflowing call, all of "
                       "length <= 4 plus a hash-selected sample of longer ones, each for PushState and for a second "
-                      "struct (AltState); ill-typed: one function per (reachable type-state, call kind) pair")
+                      "struct (AltState), and the sequences of the one-stack instance for a third (MiniState: no inputs, no "
+                      "step limit - those methods must not exist); ill-typed: one function per (reachable type-state, call kind) pair")
     ck.cov["exhaustive"] = False
     ck.cov["samples"] = [cases[0], rows[0]]
-    ck.cov["conformance"].update({"sequences_explored_by_tlc": len(raw), "sequences_compiled_and_run": n,
+    ck.cov["conformance"].update({"sequences_explored_by_tlc": len(raw), "mini_sequences_explored_by_tlc": len(mraw), "sequences_compiled_and_run": n,
                                   "type_states": len({json.dumps(t["state"], sort_keys=True) for t in tres.tagged.get("TYPESTATE", [])}),
                                   "typestate_call_pairs": len(rows), "illegal_pairs_rejected_by_rustc": rejected,
                                   "legal_pairs_accepted_by_rustc": accepted})
